@@ -112,6 +112,7 @@ ReplyExpect(h, kind) ==
    opcode |-> IF kind \in {"notimp", "refused"} THEN h.opcode ELSE -1,
    rd |-> IF kind = "refused" /\ h.opcode = OpQuery THEN h.rd ELSE -1,
    cd |-> IF kind = "refused" /\ h.opcode = OpQuery THEN h.cd ELSE -1,
+   qd |-> IF kind = "refused" THEN (IF h.qd = 0 THEN 0 ELSE 1) ELSE -1,        \* the first question, however many there were
    an |-> 0, ns |-> 0, ar |-> 0]
 
 -----------------------------------------------------------------------------
